@@ -840,7 +840,9 @@ def check(run: lib.Run, audit: dict) -> int:
     run.rule = ("A: all 7×9×11 (fmt, content-type, filename) combinations; A': command × --policyset × --strict × 11 document shapes × validator outcome per "
                 "validated value (ok / ValidationError / RuntimeError / RecursionError / KeyboardInterrupt / TypeError) × lint outcome, read/parse failures × "
                 "paths, hint combinations × parser outcomes, main × argv × parse_args outcome × command outcome, + seeded random combinations: real "
-                "functions with stub collaborators vs model vs translation; B/C: grammar documents and 14 kinds of single-point mutations, each as JSON and "
+                "functions with stub collaborators vs model vs translation; A'': rule lists from a pool of effect × actions × resource shapes, as a policy and as a "
+                "child of a set, under 12 ways of (not) naming the algorithm, + grammar documents: real linter vs model vs translation on the "
+                "POTENTIALLY_UNREACHABLE / OVERLAPPED_BY_DENY issues; B/C: grammar documents and 14 kinds of single-point mutations, each as JSON and "
                 "YAML through 20 delivery paths (parse_policy_text/bytes with conflicting hints, FilePolicySource .json/.yaml/.yml/.YAML, faked HTTP ×4, "
                 "faked S3 ×2) and the CLI (validate/check × file format × --policyset × --strict); D: the 2-rule witness on 6 paths + linter, random "
                 "algorithm-less (absent/null/empty, at any level) documents on the engine. non-trivial = document with rules that parsed identically / "
@@ -852,6 +854,7 @@ def check(run: lib.Run, audit: dict) -> int:
     violations: list = []
     check_translated_detect(run, audit, violations)
     check_translated_cli(run, audit, violations)
+    check_translated_lint(run, audit, violations)
     check_detect(run)
     check_paths_and_tools(run, audit)
     if not run.spec_failures:
